@@ -92,7 +92,7 @@ Print Assumptions C12_lockset_collector.
    statement in the same function and the literal defers wg.Done (regenerated from the source;
    this is the model's assumption that wg counts exactly the live goroutines) *)
 Theorem C12_goroutines_counted :
-  forallb (fun g => snd (fst g) && snd g) collector_goroutines = true /\ 3 <= length collector_goroutines.
+  forallb (fun g => snd (fst g) && snd g) collector_goroutines = true /\ 3 <= List.length collector_goroutines.
 Proof. vm_compute. split; [reflexivity | repeat constructor]. Qed.
 Print Assumptions C12_goroutines_counted.
 
